@@ -13,6 +13,10 @@ import (
 func TestMain(m *testing.M) {
 	// The library logs through a process-global logger; silence it.
 	logger.Init("", false, false, io.Discard)
+	// The library's verbose log lines are code too: odd-numbered shards run with verbosity 2 (output still discarded).
+	if sh, _ := gen.Shard(); sh%2 == 1 {
+		logger.SetLevel(2)
+	}
 	gen.SetProperty(os.Getenv("VERIF_PROP"))
 	code := m.Run()
 	if gen.AsyncFailed() && code == 0 {
